@@ -13,7 +13,9 @@ MANIFEST = {
             "arguments = markers of WHERE/ORDER BY/LIMIT in order) over the node-kind table REGENERATED from traversalArgs by a go/ast "
             "translator. Tie: the REAL proxy runs generated DML inside global transactions over fakedb; decoded undo-log images, the "
             "arguments of the before-image query and the table dumps around each statement are compared with the model inside Coq "
-            "(vm_compute) and with the row diff directly (oracle).",
+            "(vm_compute) and with the row diff directly (oracle); explicit transactions with a statement refused after its image query "
+            "(per-statement diffs read inside the transaction), auto_increment_increment varied per scenario and between statements, the "
+            "table-meta cache's real refresh after a dropped table.",
     "note": "Trusted: Coq kernel + vm_compute, no axioms; fakedb (evaluates the WHERE text: matched keys come from a bare SELECT with "
             "the statement's own WHERE), tcstub, atrun, tools/xlate traverse, this driver's canonicaliser. Types: integer, string, NULL.",
     "technique": "Coq proof (induction over key lists / syntax trees) over a translator-regenerated table + differential correspondence (vm_compute) + direct oracle",
